@@ -1805,6 +1805,8 @@ def dose_checks(m, rng, drv, k, mon, tags):
             except Exception as e:
                 mon.append({"cls": "dose-from-dict-raises", "what": f"Compartment round trip with dose {x!r} raised {type(e).__name__}: {e}{where}"})
         # different doses, different dicts
+        if nonnormal:
+            continue      # a field holding nan/zoo is not equal to itself (known class roundtrip-expr-not-sympy-normal): no identity to compare
         for js2, (y, how2) in seen.items():
             if js2 == js and not (y == x):
                 mon.append({"cls": "dose-to-dict-collision",
